@@ -151,6 +151,53 @@ DtATil(i, j)    == JVal(JD(1, ATilJ(i, j)))
 GamConf(i)      == JNeg(JSum3([j \in Sp |-> JD(j, GamTilUpJ(i, j))]))              \* conformal connection functions -d_j gammatilde^ij (jet, 1st order)
 DtGamConf(i)    == JVal(JD(1, GamConf(i)))
 
+(* ---- test tensors (C05): covariant derivatives, divergences, curl, Lie derivatives along the shift ---- *)
+PHI      == aux.ph
+VE(i)    == aux.ve[i]
+TE(i, j) == aux.te[<<i, j>>]
+W4v(a)   == aux.w4[a]
+G4G(a, b, c) == JVal(gam4[<<a, b, c>>])
+CovS(c)        == JVal(JD(c, PHI))
+CovU(c, a)     == Ad(JVal(JD(c, VE(a))), Sum3([d \in Sp |-> Mu(G3(a, c, d), JVal(VE(d)))]))
+CovD(c, a)     == Sb(JVal(JD(c, VE(a))), Sum3([d \in Sp |-> Mu(G3(d, c, a), JVal(VE(d)))]))
+CovUU(c, a, b) == Ad(JVal(JD(c, TE(a, b))), Ad(Sum3([d \in Sp |-> Mu(G3(a, c, d), JVal(TE(d, b)))]), Sum3([d \in Sp |-> Mu(G3(b, c, d), JVal(TE(a, d)))])))
+CovDD(c, a, b) == Sb(JVal(JD(c, TE(a, b))), Ad(Sum3([d \in Sp |-> Mu(G3(d, c, a), JVal(TE(d, b)))]), Sum3([d \in Sp |-> Mu(G3(d, c, b), JVal(TE(a, d)))])))
+CovUD(c, a, b) == Ad(JVal(JD(c, TE(a, b))), Sb(Sum3([d \in Sp |-> Mu(G3(a, c, d), JVal(TE(d, b)))]), Sum3([d \in Sp |-> Mu(G3(d, c, b), JVal(TE(a, d)))])))
+CovDU(c, a, b) == Ad(JVal(JD(c, TE(a, b))), Sb(Sum3([d \in Sp |-> Mu(G3(b, c, d), JVal(TE(a, d)))]), Sum3([d \in Sp |-> Mu(G3(d, c, a), JVal(TE(d, b)))])))
+(* spacetime covariant derivative of a 4-vector, derivative index first *)
+StCovU(m, n) == Ad(JVal(JD(m, W4v(n))), Sum4([l \in All |-> Mu(G4G(n, m, l), JVal(W4v(l)))]))
+StCovD(m, n) == Sb(JVal(JD(m, W4v(n))), Sum4([l \in All |-> Mu(G4G(l, m, n), JVal(W4v(l)))]))
+(* curl of a covariant rank-2 tensor: sym_ab( eps^cd_a D_c f_bd ), eps_ijk = sqrt(gamma) [ijk] *)
+Perm3(a, b, c) == IF Cardinality({a, b, c}) < 3 THEN 0
+                  ELSE IF <<a, b, c>> \in {<<2, 3, 4>>, <<3, 4, 2>>, <<4, 2, 3>>} THEN 1 ELSE P - 1
+Eps3UUd(c, d, a) == Dot33([efq \in Sp \X Sp |-> Mu(Mu(GU(c, efq[1]), GU(d, efq[2])), Mu(C.sd, Perm3(efq[1], efq[2], a)))])
+CurlX(a, b) == Dot33([cdq \in Sp \X Sp |-> Mu(Eps3UUd(cdq[1], cdq[2], a), CovDD(cdq[1], b, cdq[2]))])
+Curl(a, b)  == Mu(Half, Ad(CurlX(a, b), CurlX(b, a)))
+(* Lie derivatives along the shift, with density weight w: standard terms + w (d_k beta^k) T *)
+DivBeta   == Sum3([k \in Sp |-> JVal(JD(k, be[k]))])
+DB(k, a)  == JVal(JD(k, be[a]))                                            \* d_k beta^a
+Adv(f)    == Sum3([k \in Sp |-> Mu(JVal(be[k]), JVal(JD(k, f)))])          \* beta^k d_k f
+LieS(w)       == Ad(Adv(PHI), Mu(w, Mu(DivBeta, JVal(PHI))))
+LieU(a, w)    == Ad(Sb(Adv(VE(a)), Sum3([k \in Sp |-> Mu(JVal(VE(k)), DB(k, a))])), Mu(w, Mu(DivBeta, JVal(VE(a)))))
+LieD(a, w)    == Ad(Ad(Adv(VE(a)), Sum3([k \in Sp |-> Mu(JVal(VE(k)), DB(a, k))])), Mu(w, Mu(DivBeta, JVal(VE(a)))))
+LieUU(a, b, w) == Ad(Sb(Sb(Adv(TE(a, b)), Sum3([k \in Sp |-> Mu(JVal(TE(k, b)), DB(k, a))])), Sum3([k \in Sp |-> Mu(JVal(TE(a, k)), DB(k, b))])),
+                     Mu(w, Mu(DivBeta, JVal(TE(a, b)))))
+LieDD(a, b, w) == Ad(Ad(Ad(Adv(TE(a, b)), Sum3([k \in Sp |-> Mu(JVal(TE(k, b)), DB(a, k))])), Sum3([k \in Sp |-> Mu(JVal(TE(a, k)), DB(b, k))])),
+                     Mu(w, Mu(DivBeta, JVal(TE(a, b)))))
+LieUD(a, b, w) == Ad(Ad(Sb(Adv(TE(a, b)), Sum3([k \in Sp |-> Mu(JVal(TE(k, b)), DB(k, a))])), Sum3([k \in Sp |-> Mu(JVal(TE(a, k)), DB(b, k))])),
+                     Mu(w, Mu(DivBeta, JVal(TE(a, b)))))
+LieDU(a, b, w) == Ad(Sb(Ad(Adv(TE(a, b)), Sum3([k \in Sp |-> Mu(JVal(TE(k, b)), DB(a, k))])), Sum3([k \in Sp |-> Mu(JVal(TE(a, k)), DB(k, b))])),
+                     Mu(w, Mu(DivBeta, JVal(TE(a, b)))))
+LieStU(a, w) == Ad(IF a = 1 THEN Adv(W4v(1))
+                   ELSE Sb(Sb(Adv(W4v(a)), Mu(JVal(W4v(1)), JVal(JD(1, be[a])))), Sum3([k \in Sp |-> Mu(JVal(W4v(k)), DB(k, a))])),
+                   Mu(w, Mu(DivBeta, JVal(W4v(a)))))
+LieStD(a, w) == Ad(IF a = 1 THEN Ad(Adv(W4v(1)), Sum3([k \in Sp |-> Mu(JVal(W4v(k)), JVal(JD(1, be[k])))]))
+                   ELSE Ad(Adv(W4v(a)), Sum3([k \in Sp |-> Mu(JVal(W4v(k)), DB(a, k))])),
+                   Mu(w, Mu(DivBeta, JVal(W4v(a)))))
+V3s3(f) == [k \in 1 .. 27 |-> f[<<((k - 1) \div 9) + 2, (((k - 1) \div 3) % 3) + 2, ((k - 1) % 3) + 2>>]]
+W16 == Inv(6)
+Wm23 == Ng(Dv(2, 3))
+W23 == Dv(2, 3)
 V3a(f) == [k \in 1 .. 64 |-> f[<<((k - 1) \div 16) + 1, (((k - 1) \div 4) % 4) + 1, ((k - 1) % 4) + 1>>]]
 V4a(f) == [k \in 1 .. 256 |-> f[<<((k - 1) \div 64) + 1, (((k - 1) \div 16) % 4) + 1, (((k - 1) \div 4) % 4) + 1, ((k - 1) % 4) + 1>>]]
 V3s(f) == [k \in 1 .. 27 |-> f[<<((k - 1) \div 9) + 2, (((k - 1) \div 3) % 3) + 2, ((k - 1) % 3) + 2>>]]
@@ -163,7 +210,13 @@ S3a == /\ stage = 3 /\ stage' = 35
           IN  aux' = [ktrj |-> kt,
                       xj |-> [ij \in Sp \X Sp |-> JSub(KUUJraw(ij[1], ij[2]), JMul(gamup[ij], kt))],
                       psim4 |-> pm, psi4 |-> JInv(pm),
-                      epsuu |-> [cdef \in All \X All \X All \X All |-> EpsUUddraw(cdef[1], cdef[2], cdef[3], cdef[4])]]
+                      epsuu |-> [cdef \in All \X All \X All \X All |-> EpsUUddraw(cdef[1], cdef[2], cdef[3], cdef[4])],
+                      ph |-> JOf(C.phi), ve |-> [i \in Sp |-> JOf(C.vec[i - 1])],
+                      te |-> [ij \in Sp \X Sp |-> JOf(C.ten[(ij[1] - 2) * 3 + (ij[2] - 2) + 1])],
+                      w4 |-> [a \in All |-> JOf(C.vec4[a])],
+                      gamtil3 |-> LET gt  == [ij \in Sp \X Sp |-> JMul(pm, gam[ij])]
+                                      gtu == [ij \in Sp \X Sp |-> JMul(JInv(pm), gamup[ij])]
+                                  IN  GammaUp(gtu, GammaDown(gt, Sp), Sp)]
        /\ UNCHANGED <<cs, al, be, gam, gamup, gamdet, g4, g4up, g4det, gam3, gam4, kdd, r3, r4, w4, out>>
 
 S4 == /\ stage = 35 /\ stage' = 4
@@ -192,6 +245,25 @@ S4 == /\ stage = 35 /\ stage' = 4
                                   Dot33([abq \in Sp \X Sp |-> Mu(Mu(GU(ijq[1], abq[1]), GU(ijq[2], abq[2])), AD(abq[1], abq[2]))]))])),
             covd_n |-> V2a([abq \in All \X All |-> Sb(Mu(A0, JVal(gam4[<<1, abq[1], abq[2]>>])),
                                                         IF abq[2] = 1 THEN JVal(JD(abq[1], al)) ELSE 0)]),
+            covd_s |-> V1s([c \in Sp |-> CovS(c)]),
+            covd_u |-> V2s([caq \in Sp \X Sp |-> CovU(caq[1], caq[2])]), covd_d |-> V2s([caq \in Sp \X Sp |-> CovD(caq[1], caq[2])]),
+            covd_uu |-> V3s3([cab \in Sp \X Sp \X Sp |-> CovUU(cab[1], cab[2], cab[3])]),
+            covd_dd |-> V3s3([cab \in Sp \X Sp \X Sp |-> CovDD(cab[1], cab[2], cab[3])]),
+            covd_ud |-> V3s3([cab \in Sp \X Sp \X Sp |-> CovUD(cab[1], cab[2], cab[3])]),
+            covd_du |-> V3s3([cab \in Sp \X Sp \X Sp |-> CovDU(cab[1], cab[2], cab[3])]),
+            div_u |-> Sum3([a \in Sp |-> CovU(a, a)]), div_d |-> Dot33([abq \in Sp \X Sp |-> Mu(GU(abq[1], abq[2]), CovD(abq[1], abq[2]))]),
+            div_uu |-> V1s([b \in Sp |-> Sum3([a \in Sp |-> CovUU(a, a, b)])]), div_ud |-> V1s([b \in Sp |-> Sum3([a \in Sp |-> CovUD(a, a, b)])]),
+            div_du |-> V1s([b \in Sp |-> Sum3([a \in Sp |-> CovDU(a, b, a)])]),
+            div_dd |-> V1s([c \in Sp |-> Dot33([abq \in Sp \X Sp |-> Mu(GU(abq[1], abq[2]), CovDD(abq[1], abq[2], c))])]),
+            curl_dd |-> V2s([abq \in Sp \X Sp |-> Curl(abq[1], abq[2])]),
+            stcovd_u |-> V2a([mnq \in All \X All |-> StCovU(mnq[1], mnq[2])]), stcovd_d |-> V2a([mnq \in All \X All |-> StCovD(mnq[1], mnq[2])]),
+            lie_s |-> LieS(W16), lie_u |-> V1s([a \in Sp |-> LieU(a, W23)]), lie_d |-> V1s([a \in Sp |-> LieD(a, 0)]),
+            lie_uu |-> V2s([abq \in Sp \X Sp |-> LieUU(abq[1], abq[2], 1)]), lie_dd |-> V2s([abq \in Sp \X Sp |-> LieDD(abq[1], abq[2], Wm23)]),
+            lie_ud |-> V2s([abq \in Sp \X Sp |-> LieUD(abq[1], abq[2], Wm23)]), lie_du |-> V2s([abq \in Sp \X Sp |-> LieDU(abq[1], abq[2], 0)]),
+            lie_stu |-> <<LieStU(1, 0), LieStU(2, 0), LieStU(3, 0), LieStU(4, 0)>>,
+            lie_std |-> <<LieStD(1, W16), LieStD(2, W16), LieStD(3, W16), LieStD(4, W16)>>,
+            s_Gamma_udd3_bssnok |-> V3s([abc \in Sp \X Sp \X Sp |-> JVal(aux.gamtil3[abc])]),
+            s_Ricci_down3_bssnok |-> LET rt == Ricci(RiemannUddd(aux.gamtil3, Sp), Sp) IN V2s([ijq \in Sp \X Sp |-> rt[<<ijq[1], ijq[2]>>]]),
             zero9 |-> <<0, 0, 0, 0, 0, 0, 0, 0, 0>>, zero16 |-> V2a([abq \in All \X All |-> 0]), zero |-> 0, zero3 |-> <<0, 0, 0>>
          ]
       /\ UNCHANGED <<cs, al, be, gam, gamup, gamdet, g4, g4up, g4det, gam3, gam4, kdd, r3, r4, w4, aux>>
